@@ -51,6 +51,42 @@ def gen_ops(rng, obs, nops):
     return ops
 
 
+def opx_tokens(line):
+    """OP line of the harness -> OPX tokens for the opscheck driver (only for successful operations)"""
+    if "-> OK" not in line:
+        return None
+    head, tail = line.split(" -> OK")
+    p = head.split()
+    n, kind, args = p[1], p[2], p[3:]
+    info = dict(x.split("=", 1) for x in tail.split() if "=" in x)
+    lab = "op" + n
+    if kind == "spawn":
+        return "OPX %s spawn %s %d %s %s" % (lab, args[0], len(args) - 1, " ".join(args[1:]), info["new"])
+    if kind == "spawn_dummy":
+        return "OPX %s spawn_dummy %s %s %s" % (lab, args[0], args[1], info["new"])
+    if kind == "delete":
+        return "OPX %s delete %s" % (lab, args[0])
+    if kind == "addpath":
+        c = info.get("conflict", "-")
+        cs = [] if c == "-" else c.split(",")
+        return "OPX %s addpath %s %d %s %d %s" % (lab, args[0], len(args) - 1, " ".join(args[1:]),
+                                                    -1 if c == "-" else len(cs), " ".join(cs))
+    if kind == "removeseg":
+        return "OPX %s removeseg %s %s %s" % (lab, args[0], args[1], args[2])
+    if kind == "fit":
+        return "OPX %s fit %s" % (lab, " ".join(args[:4]))
+    if kind == "override":
+        return "OPX %s override %s %s" % (lab, " ".join(args[:4]), info.get("dummy", "-"))
+    if kind == "improve":
+        vs = [] if not args or args[0] == "all" else args[0].split(",")
+        return "OPX %s improve %d %s" % (lab, len(vs), " ".join(vs))
+    if kind in ("greedy_end", "consistent_end"):
+        return "OPX %s enddepots" % lab
+    if kind == "recompute":
+        return "OPX %s recompute" % lab
+    return None
+
+
 def run_case(args):
     d, k, inst, seed, nops = args
     rng = random.Random(seed * 1000003 + k)
@@ -77,6 +113,10 @@ def run_ops(d, k, inst, ops):
         return res
     perm = lib.perm_of(impl, inst)
     toks = []
+    for l in res["oplines"]:
+        t = opx_tokens(l)
+        if t:
+            toks.append(t)
     for (label, blk) in solve.sched_blocks(impl):
         toks += blk
     mpath = os.path.join(d, "c%d.min" % k)
